@@ -39,6 +39,20 @@ def r1(ctx, facts):
             return any(k[0] == "val" and k[1][1][-1:] == ("is_idempotent",) and in_set(v, {1}) for k, v in state.items())
         ok = idem(st)
         if not ok:
+            # the guard may test a captured copy (`let allowed = self.is_idempotent;` in the enclosing future)
+            site = creation_site(facts, b)
+            if site is not None:
+                par, pbb, pj, stmt = site
+                pdj = dj_of(par, facts)
+                for k, v in st.items():
+                    if k[0] == "val" and k[1][0] == 1 and k[1][1] and k[1][1][0].isdigit() and in_set(v, {1}):
+                        i = int(k[1][1][0])
+                        ops = stmt[2][2]
+                        if i < len(ops) and ops[i][0] in ("c", "m"):
+                            pp = pdj.canon.path(ops[i][1])
+                            if pp[1][-1:] == ("is_idempotent",) and len(k[1][1]) == 1:
+                                ok = True
+        if not ok:
             # the gate may have been evaluated where the enclosing future was built (`let spec = if self.is_idempotent
             # { .. } else { None }`) and only its outcome captured: combine with the creator's states, outwards
             cur, cst = b, st
@@ -157,13 +171,35 @@ def r5(ctx, facts):
     r.instance("fiber-never-builds-empty-plan", not makers,
                "run_request_speculative_fiber builds RequestError::EmptyPlan: can_be_ignored(EmptyPlan) is false, so the whole call would return while earlier executions are still in flight; "
                "an exhausted plan must be reported as None", makers[0] if makers else fb.span)
-    st_ok = [c for c in fb.calls_to("Option::<T>::map") if c.dest[0] == 0 or any(st[0] == "A" and st[1] == [0, []] and st[2][0] == "use" and st[2][1][0] in ("c", "m") and st[2][1][1][0] == c.dest[0]
-                                                                              for bb in fb.live_blocks for st in fb.stmts(bb))]
-    locs = set()
-    for c in st_ok:
-        locs |= backward_slice(fb, c.args[0])[0]
-    r.instance("fiber-returns-last-error-or-none", bool(st_ok) and any(fb.local_name(l) == "last_error" for l in locs),
-               "run_request_speculative_fiber must end with `last_error.map(Err)`: None when no attempt produced an error", fb.span)
+    # what the fiber returns at its end: None, or Some(Err(e)) with e the remembered last error
+    last = {l for l in range(len(fb.locals)) if fb.local_name(l) == "last_error"}
+    rets = []
+    for bb in sorted(fb.live_blocks):
+        for st in fb.stmts(bb):
+            if st[0] == "A" and st[1] == [0, []]:
+                rets.append(("stmt", bb, st))
+    for bb, c in fb.calls():
+        if bb in fb.live_blocks and c.dest == [0, []]:
+            rets.append(("call", bb, c))
+    tail_ok, n_tail = True, 0
+    for kind, bb, x in rets:
+        if kind == "stmt":
+            rv = x[2]
+            if rv[0] == "agg" and rv[1][0] == "adt" and rv[1][1] == "core::option::Option" and rv[1][2] == "None":
+                n_tail += 1
+                continue
+            ops = _rv_ops(rv)
+        else:
+            ops = list(x.args)
+        locs = set()
+        for o in ops:
+            locs |= backward_slice(fb, o)[0]
+        # returns that hand out an attempt's own result (Ok / definitive error) do not involve last_error: only the
+        # give-up tail must
+        if locs & last:
+            n_tail += 1
+    r.instance("fiber-returns-last-error-or-none", n_tail >= 1,
+               "run_request_speculative_fiber must end by returning the remembered last error (Some(Err(last_error))) or None when no attempt produced one", fb.span)
 
 
 def _rv_ops(rv):
